@@ -75,105 +75,107 @@ def spanLen (pred : UInt8 → Bool) : Bytes → Nat
   | [] => 0
   | c :: t => if pred c then spanLen pred t + 1 else 0
 
+/-- outcome of decoding one escape sequence (`i` = index just after the escape character) -/
+inductive Esc where
+  | bytes (bs : Bytes) (i' : Nat)       -- decoded bytes and the index after the sequence
+  | bad (k : ErrKind) (a b : Nat)       -- malformed: `panic(*Error)` / in noPanic mode `hasError = true; continue`
+  | crash
+  deriving Repr, DecidableEq
+
+/-- the three digit-checking escapes: `\xHH`, `\uHHHH`/`\UHHHHHHHH`, `\ooo` -/
+def escapeDigits (rest : Bytes) (p0 i : Nat) (pred : UInt8 → Bool) (start size base maxv : Nat)
+    (k : ErrKind) (cp : Bool) : Esc :=
+  match firstBad rest pred i size with
+  | some j => .bad k (p0 + i - 2) (p0 + i + j + 1)
+  | none =>
+    match lslice? rest start (i + size) with
+    | none => .crash
+    | some s =>
+      match parseUint? s base maxv with
+      | none => .bad .parseUint (p0 + i - 2) (p0 + i + size)
+      | some u =>
+        if cp then
+          if (0xD800 ≤ u && u ≤ 0xDFFF) || 0x10FFFF < u then .bad .invalidCodePoint (p0 + i - 2) (p0 + i + size)
+          else .bytes (Utf8.encodeRune u) (i + size)
+        else .bytes [u.toUInt8] (i + size)
+
+/-- the single-character escapes `\\a \\b \\f \\n \\r \\t \\v \\\\ \\? \\" \\' \\`` -/
+def simpleEscape? (c : UInt8) : Option UInt8 :=
+  if c == 97 then some 7
+  else if c == 98 then some 8
+  else if c == 102 then some 12
+  else if c == 110 then some 10
+  else if c == 114 then some 13
+  else if c == 116 then some 9
+  else if c == 118 then some 11
+  else if c == 92 || c == 63 || c == 34 || c == 39 || c == 96 then some c
+  else none
+
+/-- the `switch c` of `consumeQuotedContent` for a non-raw literal; `c` is the escape character
+and `i` the index after it -/
+def escape (rest : Bytes) (p0 : Nat) (unicode : Bool) (i : Nat) (c : UInt8) : Esc :=
+  match simpleEscape? c with
+  | some b => .bytes [b] i
+  | none =>
+    if c == 120 || c == 88 then escapeDigits rest p0 i Char.isHexDigit i 2 16 255 .hexEscape false
+    else if c == 117 || c == 85 then
+      if !unicode then .bad .escapeNotAllowed (p0 + i - 2) (p0 + i)
+      else escapeDigits rest p0 i Char.isHexDigit i (if c == 85 then 8 else 4) 16 0xFFFFFFFF .unicodeEscape true
+    else if c == 48 || c == 49 || c == 50 || c == 51 then
+      escapeDigits rest p0 i Char.isOctalDigit (i - 1) 2 8 255 .octalEscape false
+    else .bad .invalidEscape (p0 + i - 2) (p0 + i)
+
+inductive QStep where
+  | done (qc : QC)
+  | fail (e : LexErr)
+  | crash
+  | next (i : Nat) (content : Bytes) (hasError : Bool)
+  deriving Repr, DecidableEq
+
+/-- one iteration of the `for l.peekOk(i)` loop of `consumeQuotedContent` (and its exit) -/
+def quotedStep (rest : Bytes) (p0 : Nat) (q : Bytes) (raw unicode isIdent noPanic : Bool)
+    (i : Nat) (content : Bytes) (hasError : Bool) : QStep :=
+  match rest[i]? with
+  | none =>
+    if noPanic then .done { content := [], hasError := true, len := i }
+    else .fail ⟨.unclosed, p0, p0 + i⟩
+  | some c =>
+    match lslice? rest i (i + q.length) with
+    | none => .crash
+    | some sl =>
+      if sl == q then
+        if content.isEmpty && isIdent then
+          if noPanic then .done { content := [], hasError := true, len := i + q.length }
+          else .fail ⟨.emptyIdent, p0, p0 + i + q.length⟩
+        else if hasError then .done { content := [], hasError := true, len := i + q.length }
+        else .done { content := content, hasError := false, len := i + q.length }
+      else if c == 92 then
+        match rest[i + 1]? with
+        | none =>
+          if noPanic then .next (i + 1) content true
+          else .fail ⟨.escapeEof, p0 + i, p0 + i + 1⟩
+        | some c2 =>
+          if raw then .next (i + 2) (content ++ [92, c2]) hasError
+          else
+            match escape rest p0 unicode (i + 2) c2 with
+            | .bytes bs i' => .next i' (content ++ bs) hasError
+            | .bad k a b => if noPanic then .next (i + 2) content true else .fail ⟨k, a, b⟩
+            | .crash => .crash
+      else if c == 10 && q.length != 3 then
+        if noPanic then .next (i + 1) content true
+        else .fail ⟨.unclosedNewline, p0, p0 + i⟩
+      else .next (i + 1) (content ++ [c]) hasError
+
 /-- `consumeQuotedContent` — `rest` starts at the opening quote, `p0` is `l.pos`. -/
 def quotedLoop (rest : Bytes) (p0 : Nat) (q : Bytes) (raw unicode isIdent noPanic : Bool) :
     Nat → Nat → Bytes → Bool → Res QC
   | 0, _, _, _ => .crash
   | fuel + 1, i, content, hasError =>
-    match rest[i]? with
-    | none =>
-      if noPanic then .ok { content := [], hasError := true, len := i }
-      else .err ⟨.unclosed, p0, p0 + i⟩
-    | some c =>
-      match lslice? rest i (i + q.length) with
-      | none => .crash
-      | some sl =>
-      if sl == q then
-        if content.isEmpty && isIdent then
-          if noPanic then .ok { content := [], hasError := true, len := i + q.length }
-          else .err ⟨.emptyIdent, p0, p0 + i + q.length⟩
-        else if hasError then .ok { content := [], hasError := true, len := i + q.length }
-        else .ok { content := content, hasError := false, len := i + q.length }
-      else if c == 92 then
-        let i := i + 1
-        match rest[i]? with
-        | none =>
-          if noPanic then quotedLoop rest p0 q raw unicode isIdent noPanic fuel i content true
-          else .err ⟨.escapeEof, p0 + i - 1, p0 + i⟩
-        | some c =>
-          let i := i + 1
-          if raw then quotedLoop rest p0 q raw unicode isIdent noPanic fuel i (content ++ [92, c]) hasError
-          else
-            let simple (b : UInt8) := quotedLoop rest p0 q raw unicode isIdent noPanic fuel i (content ++ [b]) hasError
-            let fail (k : ErrKind) (a b : Nat) : Res QC :=
-              if noPanic then quotedLoop rest p0 q raw unicode isIdent noPanic fuel i content true
-              else .err ⟨k, a, b⟩
-            if c == 97 then simple 7
-            else if c == 98 then simple 8
-            else if c == 102 then simple 12
-            else if c == 110 then simple 10
-            else if c == 114 then simple 13
-            else if c == 116 then simple 9
-            else if c == 118 then simple 11
-            else if c == 92 || c == 63 || c == 34 || c == 39 || c == 96 then simple c
-            else if c == 120 || c == 88 then
-              let bad := firstBad rest Char.isHexDigit i 2
-              match bad, noPanic with
-              | some j, false => .err ⟨.hexEscape, p0 + i - 2, p0 + i + j + 1⟩
-              | _, _ =>
-                let hasError := hasError || bad.isSome
-                match lslice? rest i (i + 2) with
-                | none => .crash
-                | some s =>
-                  match parseUint? s 16 255 with
-                  | none =>
-                    if noPanic then quotedLoop rest p0 q raw unicode isIdent noPanic fuel i content true
-                    else .err ⟨.parseUint, p0 + i - 2, p0 + i + 2⟩
-                  | some u =>
-                    quotedLoop rest p0 q raw unicode isIdent noPanic fuel (i + 2) (content ++ [u.toUInt8]) hasError
-            else if c == 117 || c == 85 then
-              if !unicode then fail .escapeNotAllowed (p0 + i - 2) (p0 + i)
-              else
-                let size := if c == 85 then 8 else 4
-                let bad := firstBad rest Char.isHexDigit i size
-                match bad, noPanic with
-                | some j, false => .err ⟨.unicodeEscape, p0 + i - 2, p0 + i + j + 1⟩
-                | _, _ =>
-                  let hasError := hasError || bad.isSome
-                  match lslice? rest i (i + size) with
-                  | none => .crash
-                  | some s =>
-                    match parseUint? s 16 0xFFFFFFFF with
-                    | none =>
-                      if noPanic then quotedLoop rest p0 q raw unicode isIdent noPanic fuel i content true
-                      else .err ⟨.parseUint, p0 + i - 2, p0 + i + size⟩
-                    | some u =>
-                      if (0xD800 ≤ u && u ≤ 0xDFFF) || 0x10FFFF < u then
-                        if noPanic then quotedLoop rest p0 q raw unicode isIdent noPanic fuel i content true
-                        else .err ⟨.invalidCodePoint, p0 + i - 2, p0 + i + size⟩
-                      else
-                        quotedLoop rest p0 q raw unicode isIdent noPanic fuel (i + size)
-                          (content ++ Utf8.encodeRune u) hasError
-            else if c == 48 || c == 49 || c == 50 || c == 51 then
-              let bad := firstBad rest Char.isOctalDigit i 2
-              match bad, noPanic with
-              | some j, false => .err ⟨.octalEscape, p0 + i - 2, p0 + i + j + 1⟩
-              | _, _ =>
-                let hasError := hasError || bad.isSome
-                match lslice? rest (i - 1) (i + 2) with
-                | none => .crash
-                | some s =>
-                  match parseUint? s 8 255 with
-                  | none =>
-                    if noPanic then quotedLoop rest p0 q raw unicode isIdent noPanic fuel i content true
-                    else .err ⟨.parseUint, p0 + i - 2, p0 + i + 2⟩
-                  | some u =>
-                    quotedLoop rest p0 q raw unicode isIdent noPanic fuel (i + 2) (content ++ [u.toUInt8]) hasError
-            else fail .invalidEscape (p0 + i - 2) (p0 + i)
-      else if c == 10 && q.length != 3 then
-        if noPanic then quotedLoop rest p0 q raw unicode isIdent noPanic fuel (i + 1) content true
-        else .err ⟨.unclosedNewline, p0, p0 + i⟩
-      else quotedLoop rest p0 q raw unicode isIdent noPanic fuel (i + 1) (content ++ [c]) hasError
+    match quotedStep rest p0 q raw unicode isIdent noPanic i content hasError with
+    | .done qc => .ok qc
+    | .fail e => .err e
+    | .crash => .crash
+    | .next i' content' hasError' => quotedLoop rest p0 q raw unicode isIdent noPanic fuel i' content' hasError'
 
 def consumeQuotedContent (rest : Bytes) (p0 : Nat) (q : Bytes) (raw unicode isIdent noPanic : Bool) : Res QC :=
   quotedLoop rest p0 q raw unicode isIdent noPanic (rest.length + 2) q.length [] false
@@ -265,54 +267,89 @@ def identTok (rest : Bytes) : Scan :=
   if reserved.contains k then { kind := .sym k, len := i }
   else { kind := .ident, len := i, asString := s }
 
+def tok1 (k : String) : Res Scan := .ok { kind := K k, len := 1 }
+def tok2 (k : String) : Res Scan := .ok { kind := K k, len := 2 }
+
+/-- `l.peekOk(i) && pred(l.peek(i))` -/
+def peekSat (rest : Bytes) (i : Nat) (pred : UInt8 → Bool) : Bool :=
+  match rest[i]? with
+  | some d => pred d
+  | none => false
+
+/-- `l.peekIs(i, c)` -/
+def peekIs (rest : Bytes) (i : Nat) (c : UInt8) : Bool := rest[i]? == some c
+
+/-- the tail of `consumeToken`: identifier / keyword, or an illegal character -/
+def fallbackTok (rest : Bytes) (c : UInt8) (p0 : Nat) (noPanic : Bool) : Res Scan :=
+  if Char.isIdentStart c then .ok (identTok rest)
+  else if noPanic then .ok { kind := .bad, len := 1 }
+  else .err ⟨.illegalChar, p0, p0⟩
+
+def paramTok (rest : Bytes) : Res Scan :=
+  let i := 1 + spanLen Char.isIdentPart (rest.drop 1)
+  .ok { kind := .param, len := i, asString := slice rest 1 i }
+
+def stringTok (rest : Bytes) (c : UInt8) (p0 : Nat) (noPanic : Bool) : Res Scan :=
+  match strPrefix rest 3 0 false false with
+  | some (i, bytes, raw) =>
+    match peekDelimiter (rest.drop i) with
+    | none => .crash
+    | some q =>
+      quotedTok (if bytes then .bytes else .string) i
+        (consumeQuotedContent (rest.drop i) (p0 + i) q raw (!bytes) false noPanic)
+  | none => fallbackTok rest c p0 noPanic
+
+/-- the `switch l.peek(0)` of `consumeToken`, as a classification of the first byte -/
+inductive CC where
+  | single | dot | lt | gt | plus | minus | eq | bar | bang | at | bquote | digit | strStart | other
+  deriving DecidableEq, Repr
+
+def classify (c : UInt8) : CC :=
+  if singles.contains c then .single
+  else if c == 46 then .dot
+  else if c == 60 then .lt
+  else if c == 62 then .gt
+  else if c == 43 then .plus
+  else if c == 45 then .minus
+  else if c == 61 then .eq
+  else if c == 124 then .bar
+  else if c == 33 then .bang
+  else if c == 64 then .at
+  else if c == 96 then .bquote
+  else if Char.isDigit c then .digit
+  else if c == 66 || c == 98 || c == 82 || c == 114 || c == 34 || c == 39 then .strStart
+  else .other
+
 /-- `consumeToken` — `rest = buf.drop l.pos`, `p0 = l.pos`. -/
 def consumeToken (rest : Bytes) (p0 : Nat) (lastKind : TokKind) (noPanic : Bool) : Res Scan :=
   match rest with
   | [] => .ok { kind := .eof, len := 0 }
   | c :: _ =>
-    let r1 (k : String) : Res Scan := .ok { kind := K k, len := 1 }
-    let r2 (k : String) : Res Scan := .ok { kind := K k, len := 2 }
-    let n1 := rest[1]?
-    let fallback : Res Scan :=
-      if Char.isIdentStart c then .ok (identTok rest)
-      else if noPanic then .ok { kind := .bad, len := 1 }
-      else .err ⟨.illegalChar, p0, p0⟩
-    if singles.contains c then .ok { kind := .sym [c], len := 1 }
-    else if c == 46 then
-      let nd := isNextDotIdent lastKind
-      if !nd && (match n1 with | some d => Char.isDigit d | none => false) then consumeNumber rest p0 noPanic
-      else .ok { kind := K ".", len := 1, dot := nd }
-    else if c == 60 then
-      if n1 == some 60 then r2 "<<" else if n1 == some 61 then r2 "<=" else if n1 == some 62 then r2 "<>" else r1 "<"
-    else if c == 62 then
-      if n1 == some 62 then r2 ">>" else if n1 == some 61 then r2 ">=" else r1 ">"
-    else if c == 43 then (if n1 == some 61 then r2 "+=" else r1 "+")
-    else if c == 45 then
-      if n1 == some 61 then r2 "-=" else if n1 == some 62 then r2 "->" else r1 "-"
-    else if c == 61 then (if n1 == some 62 then r2 "=>" else r1 "=")
-    else if c == 124 then
-      if n1 == some 62 then r2 "|>" else if n1 == some 124 then r2 "||" else r1 "|"
-    else if c == 33 then (if n1 == some 61 then r2 "!=" else r1 "!")
-    else if c == 64 then
-      if n1 == some 64 then r2 "@@"
-      else if (match n1 with | some d => Char.isIdentStart d | none => false) then
-        let i := 1 + spanLen Char.isIdentPart (rest.drop 1)
-        .ok { kind := .param, len := i, asString := slice rest 1 i }
-      else r1 "@"
-    else if c == 96 then
-      quotedTok .ident 0 (consumeQuotedContent rest p0 [96] false true true noPanic)
-    else if Char.isDigit c then consumeNumber rest p0 noPanic
-    else if c == 66 || c == 98 || c == 82 || c == 114 || c == 34 || c == 39 then
-      match strPrefix rest 3 0 false false with
-      | some (i, bytes, raw) =>
-        let rest' := rest.drop i
-        match peekDelimiter rest' with
-        | none => .crash
-        | some q =>
-          quotedTok (if bytes then .bytes else .string) i
-            (consumeQuotedContent rest' (p0 + i) q raw (!bytes) false noPanic)
-      | none => fallback
-    else fallback
+    match classify c with
+    | .single => .ok { kind := .sym [c], len := 1 }
+    | .dot =>
+      if !isNextDotIdent lastKind && peekSat rest 1 Char.isDigit then consumeNumber rest p0 noPanic
+      else .ok { kind := K ".", len := 1, dot := isNextDotIdent lastKind }
+    | .lt =>
+      if peekIs rest 1 60 then tok2 "<<" else if peekIs rest 1 61 then tok2 "<="
+      else if peekIs rest 1 62 then tok2 "<>" else tok1 "<"
+    | .gt =>
+      if peekIs rest 1 62 then tok2 ">>" else if peekIs rest 1 61 then tok2 ">=" else tok1 ">"
+    | .plus => if peekIs rest 1 61 then tok2 "+=" else tok1 "+"
+    | .minus =>
+      if peekIs rest 1 61 then tok2 "-=" else if peekIs rest 1 62 then tok2 "->" else tok1 "-"
+    | .eq => if peekIs rest 1 62 then tok2 "=>" else tok1 "="
+    | .bar =>
+      if peekIs rest 1 62 then tok2 "|>" else if peekIs rest 1 124 then tok2 "||" else tok1 "|"
+    | .bang => if peekIs rest 1 61 then tok2 "!=" else tok1 "!"
+    | .at =>
+      if peekIs rest 1 64 then tok2 "@@"
+      else if peekSat rest 1 Char.isIdentStart then paramTok rest
+      else tok1 "@"
+    | .bquote => quotedTok .ident 0 (consumeQuotedContent rest p0 [96] false true true noPanic)
+    | .digit => consumeNumber rest p0 noPanic
+    | .strStart => stringTok rest c p0 noPanic
+    | .other => fallbackTok rest c p0 noPanic
 
 /-- `consumeFieldToken` -/
 def consumeFieldToken (rest : Bytes) (p0 : Nat) (lastKind : TokKind) (noPanic : Bool) : Res Scan :=
@@ -328,11 +365,10 @@ def consumeFieldToken (rest : Bytes) (p0 : Nat) (lastKind : TokKind) (noPanic : 
 def skipSpaces : Nat → Bytes → Nat
   | 0, _ => 0
   | fuel + 1, rest =>
-    match rest with
-    | [] => 0
-    | _ =>
-      let (r, size) := Utf8.decodeRune rest
-      if Utf8.isSpace r then size + skipSpaces fuel (rest.drop size) else 0
+    if rest.isEmpty then 0
+    else if Utf8.isSpace (Utf8.decodeRune rest).1 then
+      (Utf8.decodeRune rest).2 + skipSpaces fuel (rest.drop (Utf8.decodeRune rest).2)
+    else 0
 
 /-- `skipCommentUntil`: offset just past the first occurrence of `endm`, scanning from the cursor. -/
 def scanUntil (endm : Bytes) : Bytes → Option Nat
@@ -341,23 +377,26 @@ def scanUntil (endm : Bytes) : Bytes → Option Nat
     if (c :: t).take endm.length == endm then some endm.length
     else (scanUntil endm t).map (· + 1)
 
+def isLineCommentStart (rest : Bytes) : Bool :=
+  match rest with
+  | c :: _ => c == 35 || (c == 47 && rest[1]? == some 47) || (c == 45 && rest[1]? == some 45)
+  | [] => false
+
+def isBlockCommentStart (rest : Bytes) : Bool :=
+  match rest with
+  | c :: _ => c == 47 && rest[1]? == some 42
+  | [] => false
+
 /-- `skipComment`: `(bytes skipped, hasError)` -/
 def skipComment (rest : Bytes) (p0 : Nat) (noPanic : Bool) : Res (Nat × Bool) :=
-  match rest with
-  | [] => .ok (0, false)
-  | c :: _ =>
-    let n1 := rest[1]?
-    if c == 35 || (c == 47 && n1 == some 47) || (c == 45 && n1 == some 45) then
-      match scanUntil [10] rest with
-      | some n => .ok (n, false)
-      | none => .ok (rest.length, false)
-    else if c == 47 && n1 == some 42 then
-      match scanUntil [42, 47] rest with
-      | some n => .ok (n, false)
-      | none =>
-        if noPanic then .ok (rest.length, true)
-        else .err ⟨.unclosedComment, p0, p0 + rest.length⟩
-    else .ok (0, false)
+  if isLineCommentStart rest then .ok ((scanUntil [10] rest).getD rest.length, false)
+  else if isBlockCommentStart rest then
+    match scanUntil [42, 47] rest with
+    | some n => .ok (n, false)
+    | none =>
+      if noPanic then .ok (rest.length, true)
+      else .err ⟨.unclosedComment, p0, p0 + rest.length⟩
+  else .ok (0, false)
 
 structure State where
   pos : Nat := 0
@@ -416,11 +455,17 @@ def nextTokenCore (buf : Bytes) (noPanic : Bool) (s : State) : Res State :=
                 tok := { kind := sc.kind, comments := comments, space := space, raw := raw,
                          asString := sc.asString, base := sc.base, pos := pos, «end» := pos' } }
 
-/-- `Lexer.nextToken(noPanic)`: an error value is built by `l.errorfAtPosition`, which calls
-`File.Position(pos, end)`; if that panics at run time the outcome is `crash`, not `err`. -/
+/-- `Lexer.nextToken(noPanic)`: an error value is built by `l.errorfAtPosition`, which clamps `end` to the
+buffer length and calls `File.Position(pos, end)`; if that panics at run time the outcome is `crash`, not `err`. -/
+def clampErr (buf : Bytes) (e : LexErr) : LexErr :=
+  -- `errorf` (used by the two cursor-position errors) does not clamp; `errorfAtPosition` does
+  if e.kind == .illegalChar || e.kind == .numberFollow then e
+  else if buf.length < e.end then { e with «end» := buf.length } else e
+
 def nextToken (buf : Bytes) (noPanic : Bool) (s : State) : Res State :=
   match nextTokenCore buf noPanic s with
-  | .err e =>
+  | .err e0 =>
+    let e := clampErr buf e0
     match File.position buf e.pos e.end with
     | some _ => .err e
     | none => .crash
